@@ -5,6 +5,7 @@
 import Proofs.Ledger
 import Proofs.Gates
 import Proofs.WF
+import Proofs.FrozenHistory
 namespace C04
 open Esdt
 
@@ -151,10 +152,54 @@ theorem pause_unpause_preserve_balances (p : Bool) (env : Env) (c : Call) (ctx c
     ctx'.accts.read a k = ctx.accts.read a k :=
   ((frame_sys_esdtPause p env c ctx _ (Frame.refl _ _)).elim h).read_eq a k ha
 
--- PARTIAL (stated): the history-level clause ("for all histories interleaving the toggles with every balance-changing
--- function") is the composition of these per-call theorems; the whole multi-transfer loops and the destination side of a
--- multi transfer are covered item-wise (`paused_blocks_multi_item`, `spec_addNFTToDestination`, `spec_addToESDTBalance`
--- carry the gate). The C04 oracle (no entry of a frozen account / paused token changes under a non-exempt op) and
--- full-diff correspondence in the `gates` profile decide them on the implementation.
+/-- FULL (one call, the supply operations): while account `a` is frozen for fungible token `tok`, a successful local mint,
+    local burn, burn, NFT create, add-quantity, NFT burn or re-freeze — by ANY caller with ANY arguments, not flagged
+    return-after-error — leaves `a`'s balance of `tok` as it was and `a` frozen (wipe and unfreeze are the exceptions the
+    property names).  Aliasing spellings are covered for the functions that read before they write (their gate is evaluated
+    on the very entry they rewrite); NFT create writes a fresh entry, hence `hnoalias`. -/
+theorem frozen_balance_unchanged (op : SupplyOp) (hop : op ≠ .wipe ∧ op ≠ .unfreeze) (env : Env) (c : Call) (A : Accts)
+    (out : VMOutput) (ctx' : Ctx) (hI : SInv A) (hrsys : c.rcv ≠ systemAccountAddress)
+    (h : op.run env c { accts := A } = .ok (out, ctx')) (a tok : Bytes) (hfz : FrozenAt A a tok)
+    (hrae : c.rae = false) (hsc : a ≠ esdtSCAddress)
+    (hnoalias : op = .create → ∀ tok' n, c.args[0]? = some tok' →
+      nftKey (esdtKeyPrefix ++ tok') n ≠ esdtKeyPrefix ++ tok) :
+    balOf (ctx'.accts.read a (esdtKeyPrefix ++ tok)) = balOf (A.read a (esdtKeyPrefix ++ tok)) ∧
+      FrozenAt ctx'.accts a tok :=
+  frozen_step op hop env c A out ctx' hI hrsys h a tok hfz hrae hsc hnoalias
+
+/-- FULL (operation sequences, the supply operations): along ANY sequence of those operations (failed ones rolled back)
+    that contains no wipe / unfreeze and no return-after-error call, an account that is frozen for a token at the start
+    holds exactly the same balance of it at the end, and is still frozen. -/
+theorem frozen_balance_history (a tok : Bytes) (hsc : a ≠ esdtSCAddress) (steps : List SStep) (A : Accts) (hI : SInv A)
+    (hok : SStepsOK steps A) (hfs : ∀ s ∈ steps, FStepOK tok s) (hfz : FrozenAt A a tok) :
+    balOf ((srun steps A).1.read a (esdtKeyPrefix ++ tok)) = balOf (A.read a (esdtKeyPrefix ++ tok)) ∧
+      FrozenAt (srun steps A).1 a tok :=
+  frozen_history_run a tok hsc steps A hI hok hfs hfz
+
+/-! non-vacuity: alice holds 5 of a token and is frozen for it, bob holds the mint role: `FrozenAt` holds of that state, a
+    mint by bob (another account, same token) succeeds on it, and alice's entry is bit-for-bit what it was -/
+def fzAlice : Bytes := List.replicate 32 1
+def fzBob : Bytes := List.replicate 32 2
+def fzTok : Bytes := [70, 84]
+def fzEntry : Token := { type := 0, value := some 5, properties := [1, 0] }
+def fzA : Accts :=
+  Accts.write (Accts.write [] fzBob (roleKeyPrefix ++ fzTok) (encRoles [roleLocalMint])) fzAlice (esdtKeyPrefix ++ fzTok)
+    (encToken fzEntry)
+def fzEnv : Env := { self := 0, nshards := 1, payable := fun _ => .yes, dns := [], nameChange := false, gas := {}, active := true }
+def fzMint : Call := { fn := fnESDTLocalMint, caller := fzBob, rcv := fzBob, args := [fzTok, [9]], gas := 100 }
+example : FrozenAt fzA fzAlice fzTok := ⟨fzEntry, by decide +kernel, by decide⟩
+example : (match SupplyOp.mint.run fzEnv fzMint { accts := fzA } with
+    | .ok (_, c') => c'.accts.read fzAlice (esdtKeyPrefix ++ fzTok) == encToken fzEntry &&
+        balOf (c'.accts.read fzBob (esdtKeyPrefix ++ fzTok)) == 9
+    | _ => false) = true := by decide +kernel
+
+/-- `FrozenAt` is the `Frozen` of this file -/
+theorem frozenAt_iff (A : Accts) (a tok : Bytes) : FrozenAt A a tok ↔ Frozen A a tok := Iff.rfl
+
+-- PARTIAL (stated): the history-level clause for the TRANSFER functions and for pause ("for all histories interleaving the
+-- toggles with every balance-changing function") is the composition of the per-call theorems above; the whole
+-- multi-transfer loops and the destination side of a multi transfer are covered item-wise (`paused_blocks_multi_item`,
+-- `spec_addNFTToDestination`, `spec_addToESDTBalance` carry the gate). The C04 oracle (no entry of a frozen account / paused
+-- token changes under a non-exempt op) and full-diff correspondence in the `gates` profile decide them on the implementation.
 
 end C04
